@@ -68,12 +68,12 @@ func permutations(n int, f func(p []int)) {
 }
 
 // TestModelExhaustive checks the model against its own specification on every
-// permutation up to 7 batches: everything emitted once, in increasing order,
+// permutation up to 8 batches: everything emitted once, in increasing order,
 // nothing left in the buffer.  (It validates the oracle side only; it evaluates
 // no obitools4 code and counts no evaluation.)
 func TestModelExhaustive(t *testing.T) {
 	total := 0
-	for n := 0; n <= 7; n++ {
+	for n := 0; n <= 8; n++ {
 		permutations(n, func(p []int) {
 			total++
 			h := reseqModel(p)
@@ -97,5 +97,5 @@ func TestModelExhaustive(t *testing.T) {
 		})
 	}
 	evid.Class("model_permutations_checked", int64(total))
-	evid.Note("model", fmt.Sprintf("re-sequencing model validated on all %d permutations of up to 7 batches", total))
+	evid.Note("model", fmt.Sprintf("re-sequencing model validated on all %d permutations of up to 8 batches", total))
 }
